@@ -16,13 +16,16 @@ theorem numberForwards_lengths (fi : Nat) : ∀ (ps : List (Pub × Option Cursor
     omega
 
 theorem registerAck_spec (o : Outgoing) (pkid : Nat) :
-    (o.registerAck pkid).1.inflight = o.inflight.drop 1 ∧
-    ((o.registerAck pkid).2 = true ↔ ∃ fi c rest, o.inflight = (pkid, fi, c) :: rest) := by
+    ((o.registerAck pkid).2 = true ↔ ∃ fi c rest, o.inflight = (pkid, fi, c) :: rest) ∧
+    ((o.registerAck pkid).2 = true → (o.registerAck pkid).1.inflight = o.inflight.drop 1) ∧
+    ((o.registerAck pkid).2 = false → (o.registerAck pkid).1 = o) := by
   unfold Outgoing.registerAck
   cases h : o.inflight with
-  | nil => simp [h]
+  | nil => simp
   | cons hd tl =>
     obtain ⟨a, b, c⟩ := hd
-    simp [eq_comm]
+    by_cases e : a = pkid
+    · subst e; simp
+    · simp [e]
 
 end Router
